@@ -34,7 +34,7 @@ type script struct {
 }
 
 func fail(format string, args ...any) {
-	fmt.Fprintf(os.Stderr, "protoc-gen-verif: "+format+"\n", args...)
+	fmt.Fprintf(os.Stderr, "VERIF-PLUGIN-FAILURE: "+format+"\n", args...)
 	os.Exit(1)
 }
 
